@@ -23,6 +23,14 @@ class Raised(Exception):
         self.cls = cls
 
 
+class _Break(Exception):
+    pass
+
+
+class _Continue(Exception):
+    pass
+
+
 class _Return(Exception):
     def __init__(self, value):
         self.value = value
@@ -119,11 +127,23 @@ class Evaluator:
                 raise AnalysisError(f"absinterp: iteration over non-table value: {norm(st.iter)}")
             if isinstance(it, (set, frozenset)):
                 it = sorted(it)
+            broke = False
             for item in it:
                 self.bind(st.target, item, env)
-                self.block(m, st.body, env)
-            self.block(m, st.orelse, env)
+                try:
+                    self.block(m, st.body, env)
+                except _Continue:
+                    continue
+                except _Break:
+                    broke = True
+                    break
+            if not broke:
+                self.block(m, st.orelse, env)
             return
+        if isinstance(st, ast.Break):
+            raise _Break()
+        if isinstance(st, ast.Continue):
+            raise _Continue()
         if isinstance(st, (ast.Import, ast.ImportFrom)):
             for a in st.names:
                 env[a.asname or a.name.split(".")[0]] = ("module", a.name)
